@@ -1,11 +1,13 @@
 /-
-C03.4, concrete side: the family of ranges `famOf S` generated from a well-formed subnet list
-(`SubsWF`: W0, W1, W3) is a well-formed laminar family (`RngWF`).
+C03.4, concrete side: the family of ranges `famF S` generated from a well-formed subnet list
+(`SubsWF`: W0, W1) is a well-formed laminar family (`RngWF`).
 -/
 import DnsVerif.Proofs.LpmConc
 
 namespace DnsVerif.Lpm
 open DnsVerif DnsVerif.Rearr DnsVerif.Spec
+
+set_option linter.unusedSimpArgs false
 
 /-! ### arithmetic of aligned blocks -/
 
@@ -254,14 +256,6 @@ theorem straddle_true {S : List SubnetDecl} : straddle S = true ↔
   rw [← afterIPv4_eq]
   simp [straddle]
 
-/-- W3′ with no declared `0.0.0.0/0`: no block from below `::ffff:0:0` ends where the IPv4 range ends -/
-theorem noEnd {S : List SubnetDecl} (h : SubsWF S)
-    (n4 : ∀ s ∈ S, ¬ (s.net = firstIPv4 ∧ s.ones = 96)) {s : SubnetDecl} (hs : s ∈ S) :
-    ¬ (s.net < 281470681743360 ∧ s.net + 2 ^ (128 - s.ones) = 281474976710656) := by
-  rintro ⟨h1, h2⟩
-  obtain ⟨t, ht, e⟩ := h.w3 s hs (by rw [firstIPv4_eq]; exact h1) (by rw [afterIPv4_eq]; exact h2)
-  exact n4 t ht e
-
 /-- what a member of `famF S` looks like -/
 def ClsF (S : List SubnetDecl) (R : Rng) : Prop :=
   (∃ s ∈ S, R = blk s) ∨ ((∃ s ∈ S, (s.net = 0 ∧ s.ones = 0) ∧ R = half s) ∧ NoStr S) ∨
@@ -342,10 +336,6 @@ macro "fam_facts" : tactic => `(tactic| (
   try (have := n4' _ hs; rw [firstIPv4_eq] at this)
   try (have := n4 _ hs; rw [firstIPv4_eq] at this)
   try (have := n4' _ hs'; rw [firstIPv4_eq] at this)
-  try (have := noEnd h n4 hs')
-  try (have := noEnd h n4' hs)
-  try (have := noEnd h n4 hs)
-  try (have := noEnd h n4' hs')
   try (have := n6 _ hs')
   try (have := n6' _ hs)
   try (have := ns _ hs')
@@ -394,8 +384,11 @@ theorem famF_lam {S : List SubnetDecl} (h : SubsWF S) :
 
 theorem famF_nest {S : List SubnetDecl} (h : SubsWF S) :
     ∀ R ∈ famF S, ∀ R' ∈ famF S, R ≠ R' → R.sub R' →
-      (R.lo = R'.lo → R'.len < R.len) ∧ (R.hi = R'.hi → R.hi ≠ TOP → R'.len < R.len) := by
+      (R.lo = R'.lo → R'.len < R.len) ∧ (R.hi = R'.hi → R.hi ≠ TOP → ekey R.len < ekey R'.len) := by
   intro R hR R' hR' hne hsub
+  have hb := (famF_bounds h R hR).2.2
+  have hb' := (famF_bounds h R' hR').2.2
+  rw [ekey_lt_iff (by omega) (by omega)]
   rcases (mem_famF h).1 hR with ⟨s, hs, rfl⟩ | ⟨⟨s, hs, h0, rfl⟩, ns⟩ | ⟨rfl, n4⟩ | ⟨rfl, n6⟩ |
       ⟨rfl, n6, ns⟩ <;>
   rcases (mem_famF h).1 hR' with ⟨s', hs', rfl⟩ | ⟨⟨s', hs', h0', rfl⟩, ns'⟩ | ⟨rfl, n4'⟩ | ⟨rfl, n6'⟩ |
@@ -406,9 +399,11 @@ theorem famF_nest {S : List SubnetDecl} (h : SubsWF S) :
        try (have hss : s ≠ s' := by
               first | exact fun e => hne (congrArg blk e) | exact fun e => hne (congrArg half e)
             have := w1_ne h hs hs' hss)
-       clear hne
-       simp only [Rng.sub, blk, half, R4, R6a, R6b, TOP_eq, afterIPv4_eq, firstIPv4_eq] at hsub ⊢
-       omega)
+       clear hne hb hb'
+       simp only [Rng.sub, blk, half, R4, R6a, R6b, TOP_eq, afterIPv4_eq, firstIPv4_eq, ne_eq,
+         not_true_eq_false, not_false_eq_true, true_and, false_and, and_false, and_true, or_false,
+         false_or, false_imp_iff, true_imp_iff, implies_true] at hsub ⊢
+       try omega)
 
 theorem mem_rngOf {S : List SubnetDecl} (h : SubsWF S) {s : SubnetDecl} (hs : s ∈ S) {R : Rng}
     (hR : R ∈ rngOf s) : R = blk s ∨ ((s.net = 0 ∧ s.ones = 0) ∧ R = half s) := by
